@@ -560,15 +560,81 @@ def gen_op(rng, root, src_gaps=None):
             parents[path] = at_path(root.a, path[:-1])
     kind = rng.choice(['replace_expr', 'replace_expr', 'replace_stmt', 'remove', 'remove', 'insert', 'insert',
                        'append', 'put_slice', 'put_src', 'put_src', 'view', 'view', 'prepend', 'del_slice',
-                       'put_src_none', 'put_src_none'])
-    if kind == 'put_src_none':
-        cs = trailing_comments(root.src)
-        if not cs:
+                       'put_src_none', 'put_src_none', 'line_comment', 'line_comment', 'line_comment', 'docstr',
+                       'par', 'unpar', 'unpar'])
+    if kind == 'line_comment':
+        stmts = [(p, a) for p, a in nodes if p and isinstance(a, (ast.stmt, ast.ExceptHandler, ast.match_case))]
+        if not stmts:
             return None
-        ln, col, end_col = rng.choice(cs)
-        n = end_col - col
-        return {'op': 'put_src_none', 'loc': [ln, col, ln, end_col],
-                'code': rng.choice([' ' * n, '#' + 'z' * (n - 1)])}
+        def endl(a):
+            while not hasattr(a, 'end_lineno'):
+                a = a.body[-1]
+            return a.end_lineno
+
+        ends = {}
+        for p, a in stmts:
+            ends.setdefault(endl(a), []).append(p)
+        # statements that end the last line of 1, 2, 3... enclosing blocks
+        tails = [(p, a) for p, a in stmts if any(len(q) < len(p) and q == p[:len(q)] for q in ends.get(endl(a), []))]
+        clines = {ln for ln, _, _ in all_comments(root.src)}
+        commented = [(p, a) for p, a in stmts if (endl(a) - 1) in clines]
+        both = [x for x in tails if x in commented]
+        pool = rng.choice([stmts, tails or stmts, commented or stmts, both or commented or tails or stmts,
+                           both or commented or tails or stmts])
+        p, a = rng.choice(pool)
+        text = rng.choice([None, '', 'y', 'a much longer comment than whatever was there before', 'é größer – ü',
+                           'set x', '#!', 'z' * rng.randint(1, 12)])
+        d = {'op': 'line_comment', 'path': list(map(list, p)), 'text': text, 'field': None, 'full': False}
+        if text is not None and rng.random() < 0.2:
+            d.update(text=rng.choice(['  # ', ' #', '    #  ']) + text, full=True)
+        if rng.random() < 0.3:
+            flds = [f for f in ('body', 'orelse', 'finalbody') if isinstance(getattr(a, f, None), list) and getattr(a, f)]
+            if flds and not isinstance(a, (ast.IfExp,)):
+                d['field'] = rng.choice(flds)
+        return d
+    if kind == 'docstr':
+        c = [(p, a) for p, a in nodes if isinstance(a, (ast.FunctionDef, ast.AsyncFunctionDef, ast.ClassDef, ast.Module))]
+        p, a = rng.choice(c)
+        text = rng.choice([None, None, 'doc', 'Multi\nline\n  indented\n', 'é ü – ñ', '', 'a \\ backslash " quote'])
+        return {'op': 'docstr', 'path': list(map(list, p)), 'text': text, 'reput': rng.random() < 0.2}
+    if kind in ('par', 'unpar'):
+        c = [(p, a) for p, a in nodes if p and isinstance(a, (ast.expr, ast.pattern))
+             and not isinstance(parents[p], (ast.JoinedStr, ast.FormattedValue))
+             and not isinstance(a, (ast.JoinedStr, ast.FormattedValue))]
+        if kind == 'unpar':
+            # prefer nodes that have grouping parentheses right now (CPython positions: text before the node is '(')
+            def has_par(a):
+                try:
+                    line = root._lines[a.lineno - 1]
+                    return line[:line.b2c(a.col_offset)].rstrip().endswith('(')
+                except Exception:
+                    return False
+            c2 = [(p, a) for p, a in c if has_par(a)]
+            c = c2 if c2 and rng.random() < 0.85 else c
+        if not c:
+            return None
+        p, a = rng.choice(c)
+        if kind == 'par':
+            return {'op': 'par', 'path': list(map(list, p)), 'force': rng.random() < 0.6}
+        return {'op': 'unpar', 'path': list(map(list, p)), 'node': rng.random() < 0.2, 'shared': rng.random() < 0.8}
+    if kind == 'put_src_none':
+        # comment-only / whitespace-only rectangles that reach the end of their line (nothing to offset behind them)
+        lines = root.src.split('\n')
+        cs = all_comments(root.src)
+        cand = []
+        for ln, col, end_col in cs:
+            n = end_col - col
+            cand.append(([ln, col, ln, end_col], [' ' * n, '#' + 'z' * (n - 1), '', '# é longer comment text ü', '#']))
+        for ln, l in enumerate(lines):
+            if l and not l.isspace() and not l.rstrip().endswith('\\') and ln not in {c[0] for c in cs} \
+                    and ln in code_end_lines(root.src):
+                e = len(l)
+                b = len(l.rstrip())
+                cand.append(([ln, b, ln, e], ['  # new', '   ', '  # ü']) if rng.random() < 0.5 else ([ln, e, ln, e], ['  ', ' # c']))
+        if not cand:
+            return None
+        loc, codes = rng.choice(cand)
+        return {'op': 'put_src_none', 'loc': loc, 'code': rng.choice(codes)}
     if kind == 'replace_expr':
         c = [(p, a) for p, a in nodes if p and _is_plain_expr_slot(p, a, parents[p])]
         if not c:
@@ -585,7 +651,8 @@ def gen_op(rng, root, src_gaps=None):
         c = [(p, a) for p, a in nodes if p and p[-1][1] is not None
              and isinstance(a, (ast.stmt, ast.expr, ast.arg, ast.keyword, ast.alias, ast.withitem, ast.ExceptHandler,
                                 ast.match_case, ast.comprehension, ast.pattern, ast.type_param))
-             and not isinstance(parents[p], (ast.JoinedStr, ast.Compare, ast.BoolOp))]
+             and not isinstance(parents[p], (ast.JoinedStr, ast.Compare, ast.BoolOp))
+             and not (isinstance(a, ast.ExceptHandler) and len(parents[p].handlers) == 1)]   # try/else needs an except (C01/C03)
         if not c:
             return None
         p, a = rng.choice(c)
@@ -705,14 +772,19 @@ def apply_op(root, op):
     opts = {'norm': True}
     k = op['op']
     if k == 'put_src_none':
-        # action=None: "best to call on the node that owns the source": the statement the trailing comment is on
+        # action=None: "best to call on the node that owns the source": the statement a trailing comment / whitespace
+        # is on, the innermost block (or the module) for a comment on its own line
         ln, col, end_ln, end_col = op['loc']
         owner = None
         for _, a in enum_nodes(root.a):
             if isinstance(a, ast.stmt) and a.end_lineno - 1 == ln and root._lines[ln].b2c(a.end_col_offset) <= col:
                 owner = a.f
         if owner is None:
-            raise ValueError('no owner statement')
+            for _, a in enum_nodes(root.a):
+                if isinstance(a, ast.stmt) and a.lineno - 1 <= ln <= a.end_lineno - 1:
+                    owner = a.f
+        if owner is None:
+            owner = root
         owner.put_src(op['code'], ln, col, end_ln, end_col, None)
         return {}
     if k == 'put_src':
@@ -723,6 +795,18 @@ def apply_op(root, op):
     path = tuple((n, i) for n, i in op['path'])
     a = at_path(root.a, path)
     f = a.f
+    if k == 'line_comment':
+        f.put_line_comment(op['text'], op['field'], op['full'])
+        return {}
+    if k == 'docstr':
+        f.put_docstr(op['text'], op['reput'], **opts)
+        return {}
+    if k == 'par':
+        f.par(op['force'])
+        return {}
+    if k == 'unpar':
+        f.unpar(op['node'], shared=op['shared'])
+        return {}
     if k == 'replace':
         f.replace(op['code'], **opts)
     elif k == 'remove':
@@ -853,6 +937,24 @@ def gaps(src):
     return out
 
 
+def all_comments(src):
+    """[(ln, col, end_col)] of every comment token"""
+    import tokenize
+    try:
+        return [(t.start[0] - 1, t.start[1], t.end[1]) for t in util.tokens(src) if t.type == tokenize.COMMENT]
+    except Exception:
+        return []
+
+
+def code_end_lines(src):
+    """0-based lines on which a logical line ends (NEWLINE token): trailing whitespace there is free"""
+    import tokenize
+    try:
+        return {t.start[0] - 1 for t in util.tokens(src) if t.type == tokenize.NEWLINE}
+    except Exception:
+        return set()
+
+
 def trailing_comments(src):
     """[(ln, col, end_col)] of comments that follow code on the same line"""
     import tokenize
@@ -899,6 +1001,34 @@ def gen_pre(rng, root, frac=None):
     return out
 
 
+def gen_pre_focus(rng, root, op):
+    """pre-queries on the edit target, its ancestors and its siblings (the nodes whose caches the edit must flush)"""
+    if 'path' not in op:
+        return []
+    path = tuple((n, i) for n, i in op['path'])
+    targets = [path[:k] for k in range(len(path) + 1)]
+    if path:
+        par = path[:-1]
+        try:
+            pa = at_path(root.a, par)
+            for p, _ in enum_nodes(pa):
+                if len(p) == 1:
+                    targets.append(par + p)
+        except Exception:
+            pass
+    out = []
+    mode = rng.choice(['none', 'some', 'all', 'all'])
+    if mode == 'none':
+        return out
+    for p in targets:
+        if mode == 'all' or rng.random() < 0.5:
+            qs = QNAMES if rng.random() < 0.3 else rng.sample(['loc', 'bloc', 'pars', 'parsF', 'parsN', 'own_src', 'src',
+                                                                 'lines', 'views', 'delims', 'arglists', 'docstr'], 4)
+            for q in qs:
+                out.append([list(map(list, p)), q])
+    return out
+
+
 def run_pre(root, pre):
     env = Env(root)
     for path, q in pre:
@@ -919,10 +1049,16 @@ def fresh_tree(src):
 _ARGLIKE_FIELDS = {'Call': ('args', 'keywords'), 'ClassDef': ('bases', 'keywords'), 'MatchClass': ('patterns', 'kwd_patterns')}
 
 
-def _stale_sig(root, key, knd, q, okind, stale, fresh):
+def _stale_sig(root, key, knd, q, okind, stale, fresh, family=None):
     """Signature of a stale answer. One family is singled out (finding C02-F1): `pars(shared=None)` of an element of
     Call.args/keywords, ClassDef.bases/keywords, MatchClass.patterns whose parenthesis count is off by exactly one
     (the container's own parentheses count as enclosing parentheses only while the element is the sole one)."""
+    if family and family[0] == 'unpar-pars-to-spaces' and (
+            (key == family[1] and q in ('pars', 'parsF', 'parsN'))
+            or (q == 'views' and family[1].startswith(key + '.'))):      # view loc of the parent field uses the child's pars()
+        # finding C02-F3: unpar() replaced both parentheses by spaces in the line text directly (alphanumeric on both
+        # sides), nothing cleared the node's own cached pars answers
+        return ('pars', 'unpar-pars-to-spaces', '-', 'stale-cache')
     if q == 'parsN':
         try:
             head, _, last = key.rpartition('.')
@@ -958,6 +1094,10 @@ def zombies(root, held):
     return out
 
 
+import re as _re
+_re_dangling_cont = _re.compile(r'\\[ \t]*\n[ \t]*(\n|$)')
+
+
 def oneline_block_continuation(root, op):
     """Finding C02-F2 (a C01 matter) input class: a deletion inside a block whose body starts on the header line and
     continues after `;` with a backslash continuation (`if x: y; \\` newline `z = 1`)."""
@@ -982,7 +1122,7 @@ def oneline_block_continuation(root, op):
     return False
 
 
-def check_state(root, root_id, op, view_info=None, graphs=None, target_kind='-', c01_family=None):
+def check_state(root, root_id, op, view_info=None, graphs=None, target_kind='-', c01_family=None, stale_family=None):
     """All C02 checks on the current state. Returns list of (signature-parts, what, detail)."""
     fails = []
     okind = op_kind(op) if op else 'none'
@@ -1019,14 +1159,14 @@ def check_state(root, root_id, op, view_info=None, graphs=None, target_kind='-',
         for k, v in d.items():
             if k in r and r[k] != v:
                 q = _KEYQ.get(k, f'_cache[{k}]')
-                sig = _stale_sig(root, key, knd, q, okind, v, r[k])
+                sig = _stale_sig(root, key, knd, q, okind, v, r[k], stale_family)
                 if sig not in stale_seen:
                     stale_seen.add(sig)
                     fails.append((sig, f'_cache[{k!r}] of {knd} at {key} holds {v} after the edit but recomputation '
                                        f'after _cache.clear() gives {r[k]}', None))
                 break
     for key, knd, q, x, y in diff_answers(live, live2):
-        sig = _stale_sig(root, key, knd, q, okind, x, y)
+        sig = _stale_sig(root, key, knd, q, okind, x, y, stale_family)
         if sig not in stale_seen:
             stale_seen.add(sig)
             fails.append((sig, f'{q} of {knd} at {key}: answered {str(x)[:160]} with the caches as the edit left them, '
@@ -1082,7 +1222,7 @@ def run_history(src, steps=None, seed=None, nsteps=6, with_graphs=False, stop_on
                 op = None
             if op is None:
                 break
-            step = {'pre': gen_pre(rng, root), 'op': op}
+            step = {'pre': gen_pre(rng, root) + gen_pre_focus(rng, root, op), 'op': op}
         run_pre(root, step['pre'])
         held = [(a.f, a.__class__.__name__) for _, a in enum_nodes(root.a) if getattr(a, 'f', None) is not None]
         before_src = root.src
@@ -1093,20 +1233,36 @@ def run_history(src, steps=None, seed=None, nsteps=6, with_graphs=False, stop_on
         except Exception:
             target_kind = '-'
         c01_family = 'delete-in-oneline-block-with-continuation' if oneline_block_continuation(root, op) else None
+        if c01_family is None and _re_dangling_cont.search(before_src):
+            c01_family = 'edit-after-dangling-line-continuation'     # state left by known finding C01-K8
         try:
             info = apply_op(root, op)
         except RecursionError:
             raise
         except Exception as e:
             res['n_raised'] += 1
+            res['steps'].append({'pre': step['pre'], 'op': op, 'raised': type(e).__name__})   # replayed too: may matter
             if root.src != before_src or util.dump_pos(root.a) != before_dump or id(root) != root_id:
                 res['abandoned'] = f'failed edit changed the tree (C12 matter): {op_kind(op)} {type(e).__name__}'
                 break
             continue
+        if op['op'] in ('par', 'unpar'):
+            # "doesn't do any higher level parsability validation ... that's on you": only meaning-preserving calls count
+            try:
+                same = ast.dump(ast.parse(root.src)) == ast.dump(ast.parse(before_src))
+            except SyntaxError:
+                same = False
+            if not same:
+                res['abandoned'] = 'par/unpar changed the meaning of the source (caller responsibility)'
+                break
         res['steps'].append(step)
         res['n_ops'] += 1
         res['kinds'].append(op_kind(op))
-        fails, stop = check_state(root, root_id, op, info if info else None, graphs, target_kind, c01_family)
+        stale_family = None
+        if op['op'] == 'unpar' and len(root.src) == len(before_src) and root.src != before_src:
+            stale_family = ('unpar-pars-to-spaces', pstr(tuple((n, i) for n, i in op['path'])))
+        fails, stop = check_state(root, root_id, op, info if info else None, graphs, target_kind,
+                                  c01_family or (stale_family and stale_family[0]), stale_family)
         z = zombies(root, held)
         if z:
             fails.append((('is_alive', op_kind(op), z[0], 'zombie-node'),
